@@ -15,7 +15,7 @@ RULE = ('Hypothesis draws configuration and a history heavy on end causes - clie
         'failed, poll timeout, protocol errors - injected one after another or inside the same '
         'unsettled step (simultaneous), with connect-handler outcomes (accept, False, 0, text, '
         'dict, list, raise), message/disconnect handler exceptions and requests/frames after the '
-        'end. Oracle: per session the handler log matches connect (message)* disconnect?, at most '
+        'end; handlers may take virtual time (the event is logged when the handler starts, further causes arrive while it runs); polling clients may be JSONP / compressed-answer clients. Oracle: per session the handler log matches connect (message)* disconnect?, at most '
         'one disconnect, nothing after it, rejected sessions get no further event, the reason is '
         'the reason of a cause that had occurred, and the reason of the single cause when one '
         'cause was injected alone into a live, quiet session. Non-trivial: >=2 end causes for one '
